@@ -75,7 +75,7 @@ def cases(draw, n):
         s1, s2 = draw(st.lists(st.sampled_from(SALTS), min_size=2, max_size=2, unique=True))
     if {s1, s2} == {None, ""}:
         s2 = "other"
-    case = {"second": draw(st.sampled_from(["fresh", "recompile", "recompile"])), "family": fam, "offset": draw(st.sampled_from([0, 1, 1000, 10 ** 6, 10 ** 9, 123456789, 2 ** 31, 10 ** 12, 2 ** 53 - 7, 2 ** 60,
+    case = {"cond": draw(st.sampled_from([0, 0, 1, 2])), "second": draw(st.sampled_from(["fresh", "recompile", "recompile"])), "family": fam, "offset": draw(st.sampled_from([0, 1, 1000, 10 ** 6, 10 ** 9, 123456789, 2 ** 31, 10 ** 12, 2 ** 53 - 7, 2 ** 60,
                                                            2 ** 63 - 200000, 1541815603606036480, 10 ** 24])), "weights": ws,
             "salts": [s1, s2], "n": n}
     if len(ws) >= 3 and draw(st.integers(0, 3)) == 0:
@@ -89,6 +89,11 @@ def _text(case, salt, ws):
     labels = [M.dec(x) for x in case["labels"]] if case.get("labels") else ["g%d" % j for j in range(len(ws))]
     body = M.ret([(M.lit_of(l), w) for l, w in zip(labels, ws)])
     sp = ["region", "uid"] if case["family"] == "two-field" else ["uid"]
+    if case.get("cond"):
+        # the splitting field is ALSO read by a condition (that never diverts this population): still part of the key
+        f = "region" if case["family"] == "two-field" and case["cond"] == 2 else "uid"
+        body = M.if_([(M.cmp_(M.ident(f), "in", M.tup([M.lit_str("qa-account-1"), M.lit_str("qa-account-2")])),
+                       M.ret([(M.lit_str("qa"), "1")]))], body)
     q = "'" if salt is not None and '"' in salt else '"'
     return M.render(M.program("pop", body, salt=salt, splitters=sp, salt_q=q))
 
@@ -187,7 +192,7 @@ def judge(case):
     if case["offset"] >= 2 ** 53 - 7:
         tags.append("ids>=2^53")
     return {"viol": viol, "nontrivial": min([e for e in exp if e > 0] or [0]) >= 50, "tags": tags,
-            "key": [case["family"], case["offset"], case["salts"], ws, case.get("labels")],
+            "key": [case["family"], case["offset"], case["salts"], ws, case.get("labels"), case.get("cond")],
             "sample": {k: v for k, v in case.items() if not k.startswith("_")}}
 
 
@@ -210,6 +215,8 @@ def fixed_cases(n):
                "salts": [s2, s1], "n": n}
     yield {"second": "fresh", "family": "seq-int", "offset": 0, "weights": ["2", "1", "1", "2"], "salts": ["A", "B"], "n": n,
            "labels": [M.enc(x) for x in ["control", "treatment", "holdout", "treatment"]]}
+    for fam, c in (("seq-int", 1), ("email", 1), ("two-field", 2), ("two-field", 1), ("uuid-sequential", 1)):
+        yield {"cond": c, "second": "fresh", "family": fam, "offset": 5, "weights": ["1", "3"], "salts": ["A", "B"], "n": n}
     yield {"second": "fresh", "family": "email", "offset": 7, "weights": ["1", "2", "1"], "salts": ["A", "B"], "n": n,
            "labels": [M.enc(x) for x in ["B", "B'", '"B']]}
     # vectors with special structure: first weight equal to the mean, equal weights, a zero in front, one dominant group
